@@ -99,6 +99,8 @@ class World:
                             for alt in (b"x1", b"x2", b"x3", b"x4"):
                                 seeds = list(main.seeds)
                                 seeds[which] = alt
+                                if self.im.run("g.arb %d %s" % (gid, hx(alt))) == self.im.run("g.arb %d %s" % (gid, hx(main.seeds[which]))):
+                                    continue      # same element in a tiny group: not a mismatch
                                 o = self.pre("params %d %d %s %s %s" % (pid, gid, hx(seeds[0]), hx(seeds[1]), hx(seeds[2])))
                                 pid += 1
                                 if o == "ok":
